@@ -408,11 +408,7 @@ func ruleC02(w *World, r *Report) {
 					r.check(f == send, "R02.2", w.FuncName(f), "PFCP socket write only in SendPFCPMsg", w.Pos(i.Pos()), "in SendPFCPMsg", w.FuncName(f)+" writes to the PFCP socket directly")
 					// R02.7: SendPFCPMsg runs on several goroutines of one association (reader, heartbeat monitor,
 					// node) without a lock: the bytes between MarshalTo and Write must belong to this call alone
-					if len(cc.Args) > 0 {
-						buf := cc.Args[len(cc.Args)-1]
-						held := w.Locks().heldAt[i]
-						r.check(isFreshSlice(buf) || len(held) > 0, "R02.7", w.FuncName(f), "the datagram is written from a buffer private to this call", w.Pos(i.Pos()), "buffer allocated in the call"+ifelse(len(held) > 0, " / under a lock", ""), "the datagram is marshalled into and written from "+symOf(buf).String()+", which other goroutines sending on the same association share: one message overwrites another between MarshalTo and Write (a response is sent twice, another never)")
-					}
+					privateBuffer(w, r, "R02.7", f, i, cc)
 				}
 			})
 		}
@@ -857,4 +853,38 @@ func ruleC02NonZero(w *World, r *Report) {
 		})
 		r.check(g, "R02.5", fn, "UP SEID compared with 0 before it is used", w.Pos(st.Pos()), "dominated by lseid != 0", "the random UP SEID may be 0: the session is then not stored (PutSession refuses 0) although the response says accepted")
 	}
+}
+
+// privateBuffer: the bytes a PFCP socket write sends belong to the call that marshalled them.
+func privateBuffer(w *World, r *Report, rule string, f *ssa.Function, i ssa.Instruction, cc *ssa.CallCommon) {
+	if len(cc.Args) == 0 {
+		return
+	}
+	buf := cc.Args[len(cc.Args)-1]
+	held := w.Locks().heldAt[i]
+	r.check(isFreshSlice(buf) || len(held) > 0, rule, w.FuncName(f), "the datagram is written from a buffer private to this call", w.Pos(i.Pos()), "buffer allocated in the call"+ifelse(len(held) > 0, " / under a lock", ""), "the datagram is marshalled into and written from "+symOf(buf).String()+", which other goroutines sending on the same association share: one message overwrites another between MarshalTo and Write (a response is sent twice, another never)")
+}
+
+// ruleSendBufferPrivate (re-filed as R13.9): a Session Report Request leaves as it was built — the bytes
+// SendPFCPMsg writes are its own (the report is sent from the node goroutine while the reader and the
+// heartbeat monitor send on the same association).
+func ruleSendBufferPrivate(w *World, r *Report, prop, rule string) {
+	send := w.Fn(prop, "pfcpiface.(*PFCPConn).SendPFCPMsg")
+	n := 0
+	allInstrs(send, func(i ssa.Instruction) {
+		c, ok := i.(ssa.CallInstruction)
+		if !ok {
+			return
+		}
+		cc := c.Common()
+		isWrite := cc.IsInvoke() && cc.Method.Name() == "Write" && strings.HasSuffix(symOf(cc.Value).String(), "PFCPConn.Conn")
+		if callee := staticCallee(c); callee != nil && callee.Name() == "Write" && callee.Signature.Recv() != nil && rootTypeName(callee.Signature.Recv().Type()) == "PFCPConn" {
+			isWrite = true
+		}
+		if isWrite {
+			n++
+			privateBuffer(w, r, rule, send, i, cc)
+		}
+	})
+	r.floor(rule+" socket writes in SendPFCPMsg", n, 1)
 }
